@@ -37,14 +37,14 @@ FAULTS_BY_KIND = {
     "open-r": [["err", E.ENOENT], ["err", E.EACCES], ["err", E.EMFILE], ["crash"], ["interrupt"]],
     "read": [["err", E.EIO], ["crash"]],
     "stat": [["err", E.ENOENT], ["err", E.EACCES], ["crash"]],
-    "open-w": [["err", E.EACCES], ["err", E.ENOSPC], ["err", E.EMFILE], ["err", E.EROFS], ["crash"], ["interrupt"]],
-    "write": [["err", E.ENOSPC], ["err", E.EIO], ["crash"], ["interrupt"], "partials"],
+    "open-w": [["err", E.EACCES], ["err", E.ENOSPC], ["err", E.EMFILE], ["err", E.EROFS], ["disk-full", E.ENOSPC], ["crash"], ["interrupt"]],
+    "write": [["err", E.ENOSPC], ["err", E.EIO], ["disk-full", E.ENOSPC], ["crash"], ["interrupt"], "partials"],
     "close": [["err", E.ENOSPC], ["err", E.EIO], ["crash"], ["interrupt"]],
     "chmod": [["err", E.EPERM], ["err", E.EROFS], ["crash"], ["interrupt"]],
     "replace": [["err", E.EACCES], ["err", E.EBUSY], ["err", E.ENOSPC], ["err", E.EXDEV], ["crash"], ["interrupt"]],
     "remove": [["err", E.EACCES], ["crash"], ["interrupt"]],
     "copy-open": [["err", E.EACCES], ["err", E.ENOSPC], ["crash"], ["interrupt"]],
-    "copy-data": [["err", E.ENOSPC], ["err", E.EIO], ["crash"], ["interrupt"], "partials"],
+    "copy-data": [["err", E.ENOSPC], ["err", E.EIO], ["disk-full", E.ENOSPC], ["crash"], ["interrupt"], "partials"],
     "copy-stat": [["err", E.EPERM], ["crash"], ["interrupt"]],
     "fsync": [["err", E.EIO], ["crash"]],
     "flush": [["err", E.ENOSPC], ["err", E.EIO], ["crash"], ["interrupt"]],
@@ -495,7 +495,7 @@ def run_job(job, env):
         fl = faults_for(kind, extra if isinstance(extra, int) else 0)
         if not fl:
             continue
-        cat = rng.choice(["err", "err", "crash", "partial", "interrupt", "interrupt"])
+        cat = rng.choice(["err", "err", "crash", "partial", "interrupt", "interrupt", "disk-full"])
         fl2 = [x for x in fl if x[0] == cat] or fl
         f = rng.choice(fl2)
         if f[0] == "partial":
